@@ -365,6 +365,37 @@ def get_min_dist_spec(eng: SiblingEngine, fi: FuncInfo) -> List[Ob]:
                          'get_min_dist', drop_params=extra)
 
 
+def _const_cells_over_paths(pro, returned, splitters) -> Dict[str, Dict[int, C.Term]]:
+    """Values stored through constant indices into non-returned local arrays in the prologue, merged over the prologue
+    paths: a cell that receives different values on different paths is `a if c else b` when one of the `splitters`
+    conditions c separates the paths (the same array cells filled by `x[0] = a if c else b` or under `if c:`)."""
+    per: Dict[str, Dict[int, List[tuple]]] = {}
+    for env, stores, conds in pro:
+        if C.contradictory(conds):
+            continue            # one decision tested twice with different outcomes: not a path of the function
+        for key, r in stores:
+            if r[0] == 'store' and C.is_poly(r[1]) and C.is_const(r[1]) and key not in returned:
+                idx = int(C.const_value(r[1]))
+                per.setdefault(key, {}).setdefault(idx, [])
+                # the last store of a path wins
+                per[key][idx] = [e for e in per[key][idx] if e[0] is not conds] + [(conds, r[2])]
+    out: Dict[str, Dict[int, C.Term]] = {}
+    for key, cells in per.items():
+        for idx, entries in cells.items():
+            vals = list(dict.fromkeys(v for _, v in entries))
+            if len(vals) == 1:
+                out.setdefault(key, {})[idx] = vals[0]
+                continue
+            for c in splitters:
+                yes = list(dict.fromkeys(v for cs, v in entries if c in cs))
+                no = list(dict.fromkeys(v for cs, v in entries if C.mk_not(c) in cs))
+                rest = [v for cs, v in entries if c not in cs and C.mk_not(c) not in cs]
+                if len(yes) == 1 and len(no) == 1 and not rest:
+                    out.setdefault(key, {})[idx] = C.atom(('ifexp', c, yes[0], no[0]))
+                    break
+    return out
+
+
 def spike_spec(eng: SiblingEngine, fi: FuncInfo, profile: bool) -> List[Ob]:
     """R02.3 tie zeros, R02.5 auxiliary spikes, R02.6 call roles of the nearest-spike helper."""
     obs: List[Ob] = []
@@ -391,10 +422,7 @@ def spike_spec(eng: SiblingEngine, fi: FuncInfo, profile: bool) -> List[Ob]:
     N = {k: C.atom(('call', 'len', (C.atom(('n', base[k])),))) for k in (1, 2)}
     # ---- R02.5 auxiliary spikes: arrays of size 2 whose two cells are stored in the prologue
     env0, stores0, _c = pro[0]
-    aux: Dict[str, Dict[int, C.Term]] = {}
-    for key, r in stores0:
-        if r[0] == 'store' and C.is_poly(r[1]) and C.is_const(r[1]) and key not in _returned_names(fi):
-            aux.setdefault(key, {})[int(C.const_value(r[1]))] = r[2]
+    aux = _const_cells_over_paths(pro, _returned_names(fi), [C.mk_cmp('gt', N[1], C.ONE), C.mk_cmp('gt', N[2], C.ONE)])
     found = 0
     for key, cells in sorted(aux.items()):
         if set(cells) != {0, 1}:
